@@ -48,7 +48,7 @@ def run(tier, seed):
     else:
         cases += list(dc.exhaustive_cases(3, None))
     impl, mismatch = c10.run_step_correspondence(chk, binary, cases, r, None, tier, "c02s")
-    wfm = vlib.coq_eval("c02w", dc.IMPORTS, [dc.coq_wf_expr(c) for c in cases], dc.PRELUDE)
+    wfm = dc.coq_eval("c02w", [dc.coq_wf_expr(c) for c in cases])
 
     oracle_failed = False
     distinct = set()
@@ -95,7 +95,7 @@ def run(tier, seed):
     # the theorem's automaton evaluated on the model's stream of the well-formed cases (sanity of the
     # statement on generated data: every one must be accepted)
     sample = [c for c in wf_cases if sum(1 for e in c["events"] if e[0] == "sig") <= 2][: (1500 if thorough else 400)]
-    acc = vlib.coq_eval("c02o", dc.IMPORTS, [coq_ocheck_expr(c) for c in sample], dc.PRELUDE)
+    acc = dc.coq_eval("c02o", [coq_ocheck_expr(c) for c in sample])
     for c, a in zip(sample, acc):
         chk.count("ocheck_cases")
         if not all(a):
@@ -158,7 +158,7 @@ def replay(path, seed):
         steps = vlib.run_impl(binary, "dispatcher", [inp])[0]["steps"]
         pw = dc.py_wf(inp, steps)
         why = dc.oracle_c02(inp, steps) if pw is None else None
-        model = vlib.coq_eval("c02r", dc.IMPORTS, [dc.coq_seq_expr(inp)], dc.PRELUDE)[0]
+        model = dc.coq_eval("c02r", [dc.coq_seq_expr(inp)])[0]
         diff = dc.diff_seq(steps, model)
         print("well-formed:", pw or "yes", "| oracle:", why or "accepts", "| model vs implementation:",
               "agree" if diff is None else f"differ at step {diff[0]}")
